@@ -89,6 +89,14 @@ def CTables.toTTables (lvl : Nat → Nat → Nat → Nat) (ngram maxLevel : Nat)
     entries := t.entries.map fun e => ⟨e.key, lvl e.ip t.ipTotal 250, e.next.map fun p => (p.1, lvl p.2 e.cp 2)⟩
     lns := t.lnCounts.map fun n => if t.lnTotal = 0 then maxLevel else lvl n t.lnTotal 1 }
 
+/-- the end of `_calc_level`: `if level > max_level: level = max_level elif level < 0: level = 0` -/
+def clampLevel (raw : Int) (maxLevel : Nat) : Nat :=
+  if raw > (maxLevel : Int) then maxLevel else if raw < 0 then 0 else raw.toNat
+
+/-- `_calc_level` with an arbitrary value for `floor(-log(...))` in front of the clamp -/
+def lvlOf (raw : Nat → Nat → Nat → Int) (maxLevel : Nat) : Nat → Nat → Nat → Nat :=
+  fun count total factor => clampLevel (raw count total factor) maxLevel
+
 /-- the trainer's OMEN tables of a password list -/
 def trainTTables (lvl : Nat → Nat → Nat → Nat) (alphabetSize ngram minLength maxLength maxLevel : Nat) (pws : List Str) : TTables :=
   (countTables (alphabetOf alphabetSize ngram pws) ngram minLength maxLength pws).toTTables lvl ngram maxLevel
